@@ -751,7 +751,7 @@ def standin_fmt_repo_files(tier, seed):
         rnd.shuffle(pool)
         chosen, size = [], 0
         for p, s in pool:
-            if size + len(s) <= 7000:
+            if size + len(s) <= 4000:
                 chosen.append((p, s))
                 size += len(s)
         bound = 'a seed-chosen subset (%d sources, %d bytes) of the %d distinct .ucg files and %d doc code blocks of the repository' % (len(chosen), size, nfiles, len(allsrc) - nfiles)
@@ -786,8 +786,8 @@ def standin_fmt_literal_forms(tier, seed):
     if not known('range_step'):
         lits += ['1:2:10', '0:1:0', 'a:b:c', '(1):(2):(3)', 'x.lo:2:x.hi']
     fields = BARE_FIELDS + QUOTED_FIELDS + ([] if known('keyword_prefixed_field_name') else QUOTED_FIELDS_KW)
-    ctxs = CONTEXTS if tier == 'thorough' else CONTEXTS[:7]
-    fctxs = FIELD_CONTEXTS if tier == 'thorough' else FIELD_CONTEXTS[:4]
+    ctxs = CONTEXTS if tier == 'thorough' else CONTEXTS[:4]
+    fctxs = FIELD_CONTEXTS if tier == 'thorough' else FIELD_CONTEXTS[:3]
     cases = []
     for l in lits:
         for c in ctxs:
@@ -798,10 +798,22 @@ def standin_fmt_literal_forms(tier, seed):
     for f in fields:
         for c in fctxs:
             cases.append(dict(source=c.replace('%%', '\0').replace('%s', f).replace('\0', '%') + '\n', label='field name %s in `%s`' % (f, c)))
+    ops = BINOPS + ['.']
+    nops = 0
+    for o1 in ops:
+        shapes = ['a %s b;' % o1, '(a %s b);' % o1, 'not a %s b;' % o1, 'not (a %s b);' % o1]
+        if tier == 'thorough':
+            for o2 in ops:
+                shapes += ['a %s b %s c;' % (o1, o2), '(a %s b) %s c;' % (o1, o2), 'a %s (b %s c);' % (o1, o2)]
+        for sh in shapes:
+            cases.append(dict(source=sh + '\n', label='operators `%s`' % sh))
+            nops += 1
     bound = ('%d literal forms (integers, floats incl. leading-dot / tiny / 17-digit ones, strings with every escape, raw newline / tab and non-ASCII text, '
              'NULL / booleans, symbols, selectors, ranges) x %d expression positions + %d numbers x %d constraint / range positions + %d field names '
-             '(bare incl. every reserved word, quoted incl. keyword-like, `_x`, empty, non-ASCII, escapes) x %d tuple positions'
-             % (len(lits), len(ctxs), len(INTS + FLOATS), len(NUM_CONTEXTS), len(fields), len(fctxs)))
+             '(bare incl. every reserved word, quoted incl. keyword-like, `_x`, empty, non-ASCII, escapes) x %d tuple positions + %d operator shapes '
+             '(each of the 18 binary operators alone, under `not`, parenthesised%s)'
+             % (len(lits), len(ctxs), len(INTS + FLOATS), len(NUM_CONTEXTS), len(fields), len(fctxs), nops,
+                ', and every pair as `a o1 b o2 c`, `(a o1 b) o2 c`, `a o1 (b o2 c)`' if tier == 'thorough' else ''))
     skipped = [k['tag'] for k in KNOWN if k['tag'] != 'blank_comment']
     if skipped:
         bound += '; without the KNOWN forms ' + ', '.join(skipped)
@@ -813,7 +825,7 @@ def standin_fmt_literal_forms(tier, seed):
 # ---------------------------------------------------------------------------------------------------------------------
 def standin_fmt_generated(tier, seed):
     rnd = random.Random(seed)
-    n = 1200 if tier == 'thorough' else 45
+    n = 1200 if tier == 'thorough' else 40
     cases = []
     for i in range(n):
         sub = random.Random(rnd.getrandbits(48))
